@@ -304,6 +304,8 @@ type Step struct {
 
 type InfoSnap struct {
 	ClientsConnected, Subscriptions, Retained, Inflight, InflightDropped, MessagesDropped int64
+	// the broker's actual state at the same quiescent point, read from its exported registries (C38)
+	ActualSubs, ActualInflight, ActualRetained int64
 }
 
 // Run is an executed history.
@@ -733,7 +735,12 @@ func (r *Run) Do(a Action) *Step {
 	r.inline = nil
 	r.inlineMu.Unlock()
 	inf := r.B.S.Info.Clone()
-	s.Info = InfoSnap{inf.ClientsConnected, inf.Subscriptions, inf.Retained, inf.Inflight, inf.InflightDropped, inf.MessagesDropped}
+	s.Info = InfoSnap{ClientsConnected: inf.ClientsConnected, Subscriptions: inf.Subscriptions, Retained: inf.Retained, Inflight: inf.Inflight, InflightDropped: inf.InflightDropped, MessagesDropped: inf.MessagesDropped}
+	for _, cl := range r.B.S.Clients.GetAll() {
+		s.Info.ActualSubs += int64(cl.State.Subscriptions.Len())
+		s.Info.ActualInflight += int64(cl.State.Inflight.Len())
+	}
+	s.Info.ActualRetained = int64(r.B.S.Topics.Retained.Len())
 	return s
 }
 
